@@ -622,7 +622,14 @@ func (g *gen) doLoopHead(ci *cfgInfo, h *ssa.BasicBlock, conds []string, preds [
 	g.w.loopHeads[h] = &loopHead{k: k, spec: spec, phis: phis}
 }
 
+type loopGoal struct {
+	name, clause string
+	parts        []string
+	pos          token.Pos
+}
+
 type loopHead struct {
+	goals []*loopGoal
 	edges int
 	k    int
 	spec *LoopSpec
@@ -750,10 +757,6 @@ func (g *gen) doBackEdge(ci *cfgInfo, from, h *ssa.BasicBlock, cond string) {
 		return
 	}
 	lh.edges++
-	sfx := ""
-	if lh.edges > 1 {
-		sfx = fmt.Sprintf("@edge%d", lh.edges)
-	}
 	idx := -1
 	for i, p := range h.Preds {
 		if p == from {
@@ -764,24 +767,34 @@ func (g *gen) doBackEdge(ci *cfgInfo, from, h *ssa.BasicBlock, cond string) {
 	for _, phi := range lh.phis {
 		phiVals[phi] = g.operand(phi.Edges[idx])
 	}
-	saved := g.curReach
-	g.curReach = and(g.curReach, cond)
+	reach := and(g.curReach, cond)
 	e := g.loopEnv(h, phiVals, g.cur)
+	pos := from.Instrs[len(from.Instrs)-1].Pos()
+	// the goals of all back edges of a loop are collected and emitted as one obligation per
+	// invariant (finish), so that a new `continue` cannot escape a locked obligation
 	if lh.spec != nil {
 		for j, inv := range lh.spec.Invariants {
-			g.oblige("loop.preserve", fmt.Sprintf("loop%d.preserve[%d]%s", lh.k, j+1, sfx), inv.Text, g.specBool(e, inv), from.Instrs[len(from.Instrs)-1].Pos())
+			lh.addGoal(fmt.Sprintf("loop%d.preserve[%d]", lh.k, j+1), inv.Text, implies(reach, g.specBool(e, inv)), pos)
 		}
 	}
 	for j, inv := range g.autoInvariants() {
-		g.oblige("loop.preserve", fmt.Sprintf("loop%d.auto[%d]%s", lh.k, j+1, sfx), inv, g.specBoolText(e, inv), from.Instrs[len(from.Instrs)-1].Pos())
+		lh.addGoal(fmt.Sprintf("loop%d.auto[%d]", lh.k, j+1), inv, implies(reach, g.specBoolText(e, inv)), pos)
 	}
-	g.curReach = saved
 }
 
 // ---------------------------------------------------------------- finish: ensures, frame, covers
 
 func (g *gen) finish() {
 	ct := g.ct
+	// loop preservation obligations: one per invariant, over all back edges
+	for _, b := range g.fn.Blocks {
+		if lh := g.w.loopHeads[b]; lh != nil {
+			for _, lg := range lh.goals {
+				kind := "loop.preserve"
+				g.addObl(kind, lg.name, lg.clause, and(lg.parts...), lg.pos)
+			}
+		}
+	}
 	// postconditions, one obligation per clause over all return sites
 	for i, en := range ct.Ensures {
 		var parts []string
@@ -1072,4 +1085,14 @@ func (g *gen) numberCalls() {
 			g.srcOrd[c] = i + 1
 		}
 	}
+}
+
+func (lh *loopHead) addGoal(name, clause, goal string, pos token.Pos) {
+	for _, g := range lh.goals {
+		if g.name == name {
+			g.parts = append(g.parts, goal)
+			return
+		}
+	}
+	lh.goals = append(lh.goals, &loopGoal{name: name, clause: clause, parts: []string{goal}, pos: pos})
 }
